@@ -6,7 +6,7 @@ from .. import gen
 
 def worklist_program(rng, pid, dev, nops, unit=Fraction(1), maxunits=16, wlmax=None, fault=0.0, fault_last=False,
                      comps=True, big_geom=False, small=True, autosplit=True, diti=False, direct=False, flags=None,
-                     weights=None, transfer_kw=None, big_factor=3):
+                     weights=None, transfer_kw=None, big_factor=3, labware_kw=False):
     """Generate (by driving the implementation) one program. Returns the replayable program."""
     lws = gen.random_labware(rng, small=small, maxunits=maxunits, big_geom=big_geom)
     wlmax = wlmax if wlmax is not None else rng.choice([2, 3, 5, maxunits])
@@ -33,7 +33,7 @@ def worklist_program(rng, pid, dev, nops, unit=Fraction(1), maxunits=16, wlmax=N
                     op, pres = gen.op_transfer(rng, sess, big, fault=f)
             else:
                 op, pres = gen.op_labware(rng, sess, kind, min(big, wlmax) if kind in ("aspirate", "dispense") else big,
-                                          fault=f, comps=comps)
+                                          fault=f, comps=comps, kw=gen.random_kw(rng) if labware_kw and rng.random() < 0.6 else None)
             ev = sess.do(op, pres)
             if ev["out"] != "ok" and fault_last:
                 break
